@@ -115,3 +115,19 @@ PROPS["C15"] = dict(
     design_ref="§6 C15",
     scope="all states x all call positions (parametric); tables: all 12 structs with take(), 8 clearers",
 )
+
+from stages import stage_c20  # noqa: E402
+
+PROPS["C20"] = dict(
+    groups=["types"],
+    lean_props=["SeaQ.Props.C20"],
+    lean_obligations=[],
+    extra=[stage_c20],
+    harness=False,
+    technique="rustc decides (generated probe crate instantiating Send + Sync at every public type, compiled against /repo with and without thread-safe); Lean 4 model of the auto-trait rule on the public type graph regenerated from the source, with the fixpoint obligation decided by the kernel and its per-type prediction compared with rustc's answer in both configurations",
+    level_text="The Lean theorem states that 'every public type is Send + Sync' is a fixpoint of the auto-trait rule on the type graph extracted from the current source under thread-safe (RcOrArc = Arc, Iden: Send + Sync), and that without the feature some type is not. The authoritative decision is the compiler's: a generated crate asks rustc, for each of the ~125 public non-generic types, whether it is Send + Sync, with the feature (all must be) and without (must be exactly the types the model predicts) — a disagreement either way is a broken correspondence, a `false` under the feature is a violation naming the type.",
+    level_note="Trusted: rustc (auto traits); the translator's type graph (field types by identifier; Box/Vec/Option/tuples transparent; external feature types assumed Send + Sync, which rustc confirms or refutes in the probe); generic public types (SeaRc<I>) are covered through their instantiations in other types.",
+    design_ref="§6 C20",
+    scope="all public non-generic types x {thread-safe on, off}",
+    timeout=3000,
+)
